@@ -75,6 +75,7 @@ type Task struct {
 	// BlockedOn is a human-readable description for deadlock reports.
 	BlockedOn string
 
+	nkids     int
 	exited    bool
 	abort     bool
 	unwinding bool
@@ -90,6 +91,23 @@ type Config struct {
 	KeepLog  bool // keep the decoded event log (replay / samples)
 	// CrashAtEvent, when >0, crashes the run as soon as Seq reaches it.
 	CrashAtEvent int64
+	// Pick, when set, replaces the tape for scheduling decisions: it receives
+	// the runnable tasks (current first when curFirst) and returns an index,
+	// or -1 to let the tape decide. Used for guided (schedule-transfer) runs.
+	Pick func(opts []*Task, curFirst bool) int
+	// PathNames names tasks by spawn path ("0", "0.0", "0.1", "0.0.0", ...).
+	PathNames bool
+	// TraceSync records synchronisation events (fork, acquire, release,
+	// wg-add, wg-wait, exit) for schedule transfer.
+	TraceSync bool
+}
+
+// SyncEv is one synchronisation event of a run (see glang.SyncEvent).
+type SyncEv struct {
+	Thread string
+	Kind   string
+	Obj    int
+	N      int64
 }
 
 // Sim is one simulation. At most one is active per process.
@@ -118,6 +136,10 @@ type Sim struct {
 	// a map would be a race-detector-visible shared object).
 	Kern    interface{}
 	SyncOrd interface{}
+
+	// SyncTrace is the recorded synchronisation events (Config.TraceSync).
+	SyncTrace []SyncEv
+	syncObjs  map[unsafe.Pointer]int
 
 	// Probes counts named rare events; Faults counts fired faults.
 	Probes map[string]int
@@ -173,6 +195,9 @@ func (s *Sim) Run(root func()) Result {
 	s.outcome = Completed
 	s.detail = ""
 	t := &Task{fn: root, wake: make(chan struct{}), Name: "root"}
+	if s.cfg.PathNames {
+		t.Name = "0"
+	}
 	s.addTask(t)
 	s.wg.Add(1)
 	go s.taskMain(t)
@@ -296,6 +321,9 @@ func (s *Sim) loop() {
 //go:norace
 func (s *Sim) handle(t *Task) {
 	if t.exited {
+		if !s.aborted {
+			s.Sync(t, "exit", nil, 0)
+		}
 		return
 	}
 	st := t.h(s, t, t.req)
@@ -354,6 +382,11 @@ func (s *Sim) pick() *Task {
 		}
 		opts, curFirst := s.runnable()
 		if len(opts) > 0 {
+			if s.cfg.Pick != nil {
+				if i := s.cfg.Pick(opts, curFirst); i >= 0 && i < len(opts) {
+					return opts[i]
+				}
+			}
 			ids := make([]int, len(opts))
 			for i, t := range opts {
 				ids[i] = t.ID
@@ -474,3 +507,29 @@ func (t *Task) ReqX() interface{} { return t.req.X }
 //
 //go:norace
 func (t *Task) PendingReq() *Req { return t.req }
+
+// Sync records a synchronisation event; obj identifies the lock / waitgroup
+// (its ordinal is assigned by first appearance in the trace). For handlers.
+//
+//go:norace
+func (s *Sim) Sync(t *Task, kind string, obj unsafe.Pointer, n int64) {
+	if !s.cfg.TraceSync {
+		return
+	}
+	o := 0
+	if obj != nil {
+		if s.syncObjs == nil {
+			s.syncObjs = map[unsafe.Pointer]int{}
+		}
+		v, ok := s.syncObjs[obj]
+		if !ok {
+			v = len(s.syncObjs)
+			s.syncObjs[obj] = v
+		}
+		o = v
+	} else if kind == "fork" {
+		o = int(n)
+		n = 0
+	}
+	s.SyncTrace = append(s.SyncTrace, SyncEv{Thread: t.Name, Kind: kind, Obj: o, N: n})
+}
